@@ -11,7 +11,11 @@ CLAIMS = {
         text="Static necessary conditions over all MIR paths of the five crates: every feasibility marker / InsertionSuccess is dominated by the None "
              "edge of the complete goal.evaluate on activity and route level, only confirmed modules insert into tours, constraints read cache and "
              "dimension slots with the type they are written with and every slot they read has a writer, every job/route removal is guarded by the "
-             "locked set; hard-constraint verdicts on loads use the component-wise can_fit, never the partial order. Not decided: that each constraint's arithmetic is right (feasible(P,S) itself), completeness of goal assembly.",
+             "locked set; hard-constraint verdicts on loads use the component-wise can_fit, never the partial order. Value-level LAWS decided by finite evaluation over all "
+             "orderings of the compared values / canonical expressions: can_fit iff load <= capacity per dimension and asked the right way round, skills (allOf subset, oneOf "
+             "intersects, noneOf disjoint, all three required), tour limits (violation iff total + change > limit, kinds not mixed), reachability (rejected iff a new leg is "
+             "negative), time windows (admitted iff no arrival after its latest time; abort only on target-independent facts), capacity (each demand part against its own load "
+             "summary; abort only for static delivery). Not decided: arithmetic of the remaining constraints (breaks, recharge, reload thresholds) (feasible(P,S) itself), completeness of goal assembly.",
         note="Assumes user relations/initial solutions consistent (documented precondition); CHA call graph; module-level allow tables with reasons.",
         ref="DESIGN.md §5 C01"),
     "C02": dict(
@@ -47,7 +51,9 @@ CLAIMS = {
         text="Static necessary conditions of cache coherence over every path of every function: the stale bit is unforgeable and cleared only "
              "after all refreshes; per FeatureState impl every per-route slot is refreshed where stale bits are cleared; no hand-over function "
              "returns a possibly stale route; insert-then-accept pairing; a slot written on some paths only is removed on the others (must-write, presence "
-             "law by finite evaluation) or its guard is constant per route. Not decided: that incremental updates compute the same values as recomputation.",
+             "law by finite evaluation) or its guard is constant per route; the schedule, latest-arrival / waiting, activity-time and load-summary recurrences have "
+             "their defining form (canonical expressions: leg origin/destination/time, carried pair, max_load of carried maximum and current load). Not decided: "
+             "numeric equality of incremental updates with recomputation for the remaining summaries.",
         note="Assumes CHA resolution of workspace traits, closures may-run at construction site, calls through stored dyn Fn fields not followed.",
         ref="DESIGN.md §5 C05"),
     "C06": dict(
